@@ -244,6 +244,19 @@ var classes = []evid.Class{
 		td := jgen.TypeDesc{K: "struct", Fields: []jgen.FieldDesc{{Name: "N", Tag: &tg, T: jgen.TypeDesc{K: "number"}}}}
 		return one(td, nil, `{"N":"-0 "}`)
 	}},
+	{Name: "json-named-empty-interface-holding-value", Witness: func() *evid.Failure {
+		// var x AnyT = 1; Unmarshal(`true`, &x): encoding/json replaces the held value
+		i := jgen.TypeDesc{K: "int"}
+		return one(jgen.TypeDesc{K: "@AnyT"}, &jgen.Recipe{Dyn: &i, Elems: []jgen.Recipe{{I: 1}}}, `true`)
+	}},
+	{Name: "json-null-into-undecodable-type", Witness: func() *evid.Failure {
+		// null into a channel variable and into a map whose key type cannot be decoded
+		if f := one(jgen.TypeDesc{K: "@ChanM"}, nil, `null`); f != nil {
+			return f
+		}
+		k, e := jgen.TypeDesc{K: "@KPS"}, jgen.TypeDesc{K: "int"}
+		return one(jgen.TypeDesc{K: "map", Key: &k, Elem: &e}, &jgen.Recipe{}, `null`)
+	}},
 	{Name: "json-string-option-inner-text-checked-with-outer-flags", Witness: func() *evid.Failure {
 		// struct{S string `json:",string"`}: the quoted text "a<TAB>b" (raw control character once the outer
 		// escapes are resolved) is not a JSON string; encoding/json rejects it
